@@ -13,6 +13,7 @@ import ast
 from fractions import Fraction
 from .py2lean import TranslationError, find_class, find_func, lean_list, strip_doc
 from .common import parse, HEADER, exc_names, lean_exc
+from .c11_norm import Norm, _loads, _simple_assign
 
 
 def lean_str(s: str) -> str:
@@ -119,71 +120,147 @@ def _handlers(evcls: ast.ClassDef, rule: str) -> list:
 
 # ---- accessor expressions ---------------------------------------------------------------------
 class _Acc:
-    """symbolic evaluation of a `getX` body into the little expression language `AExp`"""
-    def __init__(self, name):
+    """symbolic evaluation of a `getX` body into the little expression language `AExp`.
+
+    Values: SELF (the timestamp), TZNAME (the accessor's zone argument), TZ (`tz_parse(TZNAME)`), WD
+    (`SELF.astimezone(TZ)`), JAN1, ("K", int), ("A", lean) an integer expression over the fields of WD, ("I", lean)
+    the same wrapped by `IntType(...)`, ("M", name) the result of `SELF.<accessor>(TZNAME)`.
+    Locals are evaluated away (renaming / hoisting / inlining a local is invisible) and calls of other methods of
+    the class (`self._civil(tz_name)`) or of module-level functions are INLINED (up to 3 levels): their bodies go
+    through the same evaluation, so an extracted helper is followed, and a helper that does anything else than
+    the recognised primitives is a translation failure."""
+    def __init__(self, name, cls: ast.ClassDef = None, mod: ast.Module = None):
         self.name = name
-        self.env = {}
+        self.cls = cls
+        self.mod = mod
 
     def fail(self, what):
-        raise TranslationError(f"TimestampType.{self.name}: {what}")
+        raise TranslationError(f"{self.name}: {what}")
 
-    def ev(self, e):
+    INT_WRAPPERS = ("IntType", "celtypes.IntType", "celpy.celtypes.IntType")
+
+    def ev(self, e, env, depth):
+        if isinstance(e, ast.Constant) and isinstance(e.value, int) and not isinstance(e.value, bool):
+            return ("K", e.value)
         if isinstance(e, ast.Name):
-            if e.id in self.env:
-                return self.env[e.id]
+            if e.id in env:
+                return env[e.id]
             self.fail(f"name {e.id}")
         if isinstance(e, ast.Call):
             fsrc = ast.unparse(e.func)
-            if fsrc == "self.tz_parse" and len(e.args) == 1 and ast.unparse(e.args[0]) == "tz_name":
-                return ("TZ",)
-            if fsrc == "self.astimezone" and len(e.args) == 1 and self.ev(e.args[0]) == ("TZ",):
-                return ("WD",)
+            if fsrc in self.INT_WRAPPERS and len(e.args) == 1 and not e.keywords:
+                r = self.ev(e.args[0], env, depth)
+                if r[0] in ("A", "I"):
+                    return ("I", r[1])          # IntType(IntType(x)) == IntType(x)
+                if r[0] == "M":
+                    return r                     # accessors return an IntType already
+                self.fail("IntType(...) of a non-integer expression")
             if fsrc == "datetime.datetime":
-                args = [self.ev(a) if not isinstance(a, ast.Constant) else ("K", a.value) for a in e.args]
-                kws = {k.arg: self.ev(k.value) for k in e.keywords}
+                args = [self.ev(a, env, depth) for a in e.args]
+                kws = {k.arg: self.ev(k.value, env, depth) for k in e.keywords}
                 if args == [("A", ".fld \"year\""), ("K", 1), ("K", 1)] and kws == {"tzinfo": ("TZ",)}:
                     return ("JAN1",)
                 self.fail("datetime.datetime(...) shape")
-            if isinstance(e.func, ast.Attribute) and not e.args and not e.keywords:
-                base = self.ev(e.func.value)
-                if base == ("WD",):
-                    return ("A", f".call {lean_str(e.func.attr)}")
-                if base == ("JAN1",) and e.func.attr == "toordinal":
-                    return ("A", ".jan1ord")
+            if isinstance(e.func, ast.Attribute):
+                static = fsrc in ("TimestampType.tz_parse",)
+                base = ("SELF",) if static else self.ev(e.func.value, env, depth)
+                attr = e.func.attr
+                if base == ("SELF",):
+                    args = [self.ev(a, env, depth) for a in e.args]
+                    if e.keywords:
+                        self.fail(f"keyword arguments in {fsrc}(...)")
+                    if attr == "tz_parse":
+                        if args == [("TZNAME",)]:
+                            return ("TZ",)
+                        self.fail("tz_parse(...) of something else than the zone argument")
+                    if attr == "astimezone":
+                        if args == [("TZ",)]:
+                            return ("WD",)
+                        self.fail("astimezone(...) of something else than tz_parse(tz_name)")
+                    if attr in ACCESSORS and args == [("TZNAME",)]:
+                        return ("M", attr)
+                    helper = None
+                    if self.cls is not None:
+                        helper = next((st for st in self.cls.body if isinstance(st, ast.FunctionDef) and st.name == attr), None)
+                    if helper is None:
+                        self.fail(f"call {fsrc}")
+                    decs = [ast.unparse(d) for d in helper.decorator_list]
+                    if decs == ["staticmethod"]:
+                        return self.inline(helper, args, depth)
+                    if decs == []:
+                        return self.inline(helper, [("SELF",)] + args, depth)
+                    self.fail(f"helper {attr} is decorated")
+                if not e.args and not e.keywords:
+                    if base == ("WD",):
+                        return ("A", f".call {lean_str(attr)}")
+                    if base == ("JAN1",) and attr == "toordinal":
+                        return ("A", ".jan1ord")
+                self.fail(f"call {fsrc}")
+            if isinstance(e.func, ast.Name) and self.mod is not None and not e.keywords:
+                helper = next((st for st in self.mod.body if isinstance(st, ast.FunctionDef) and st.name == e.func.id), None)
+                if helper is not None and not helper.decorator_list:
+                    return self.inline(helper, [self.ev(a, env, depth) for a in e.args], depth)
             self.fail(f"call {fsrc}")
         if isinstance(e, ast.Attribute):
-            base = self.ev(e.value)
+            base = self.ev(e.value, env, depth)
             if base == ("WD",):
                 return ("A", f".fld {lean_str(e.attr)}")
             self.fail(f"attribute {e.attr}")
         if isinstance(e, ast.BinOp):
-            a = self.ev(e.left)
+            a = self.ev(e.left, env, depth)
             if a[0] != "A":
                 self.fail("operand")
-            if isinstance(e.right, ast.Constant) and isinstance(e.right.value, int) and e.right.value >= 0:
-                k = e.right.value
+            b = self.ev(e.right, env, depth)
+            if b[0] == "K" and b[1] >= 0:
                 op = {ast.Sub: "subk", ast.Mod: "modk", ast.FloorDiv: "floordivk", ast.Add: "addk"}.get(type(e.op))
                 if op is None:
                     self.fail("operator")
-                return ("A", f".{op} ({a[1]}) {k}")
-            b = self.ev(e.right)
+                return ("A", f".{op} ({a[1]}) {b[1]}")
             if isinstance(e.op, ast.Sub) and b[0] == "A":
                 return ("A", f".sub ({a[1]}) ({b[1]})")
             self.fail("operator")
         self.fail(f"expression {ast.unparse(e)}")
 
-    def run(self, fn: ast.FunctionDef) -> str:
+    def inline(self, fn: ast.FunctionDef, args, depth):
+        if depth >= 3:
+            self.fail(f"helper calls nested too deeply at {fn.name}")
+        a = fn.args
+        if a.vararg or a.kwarg or a.kwonlyargs or a.posonlyargs or len(args) != len(a.args):
+            self.fail(f"helper {fn.name}: argument shape")
+        return self.body(fn, {p.arg: v for p, v in zip(a.args, args)}, depth + 1)
+
+    def body(self, fn: ast.FunctionDef, env, depth):
+        env = dict(env)
         for st in strip_doc(fn.body):
             if isinstance(st, ast.Assign) and len(st.targets) == 1 and isinstance(st.targets[0], ast.Name):
-                self.env[st.targets[0].id] = self.ev(st.value)
-            elif isinstance(st, ast.Return) and isinstance(st.value, ast.Call) and ast.unparse(st.value.func) == "IntType" and len(st.value.args) == 1:
-                r = self.ev(st.value.args[0])
-                if r[0] != "A":
-                    self.fail("return value")
-                return r[1]
+                env[st.targets[0].id] = self.ev(st.value, env, depth)
+            elif isinstance(st, ast.AnnAssign) and isinstance(st.target, ast.Name) and st.value is not None:
+                env[st.target.id] = self.ev(st.value, env, depth)
+            elif isinstance(st, ast.Return) and st.value is not None:
+                return self.ev(st.value, env, depth)
             else:
                 self.fail(f"statement {ast.unparse(st)[:60]}")
         self.fail("no return")
+
+    def _entry(self, fn: ast.FunctionDef):
+        a = fn.args
+        if a.vararg or a.kwarg or a.kwonlyargs or a.posonlyargs or len(a.args) != 2 or len(a.defaults) != 1 \
+                or not (isinstance(a.defaults[0], ast.Constant) and a.defaults[0].value is None):
+            self.fail("signature is not (timestamp, tz_name=None)")
+        return {a.args[0].arg: ("SELF",), a.args[1].arg: ("TZNAME",)}
+
+    def run(self, fn: ast.FunctionDef) -> str:
+        r = self.body(fn, self._entry(fn), 0)
+        if r[0] != "I":
+            self.fail("return value is not IntType(<integer expression>)")
+        return r[1]
+
+    def run_wrapper(self, fn: ast.FunctionDef) -> str:
+        """evaluation.function_getX: must hand the timestamp and the zone to the method of the same timestamp"""
+        r = self.body(fn, self._entry(fn), 0)
+        if r[0] != "M":
+            self.fail("wrapper does not return ts.<accessor>(tz_name)")
+        return r[1]
 
 
 ACCESSORS = ["getDate", "getDayOfMonth", "getDayOfWeek", "getDayOfYear", "getFullYear", "getMonth",
@@ -203,36 +280,76 @@ def gen_time() -> str:
     out.append(f"def nanosPerSecond : Nat := {nps}")
     scale = _scale_dict(D)
     new = find_func(D.body, "__new__")
-    text = {}
-    for node in ast.walk(new):
-        if isinstance(node, ast.Assign) and len(node.targets) == 1 and isinstance(node.targets[0], ast.Name):
-            text[node.targets[0].id] = ast.unparse(node.value)
+    # Everything below is taken from the NORMAL FORM of `__new__` (c11_norm: accumulation loops -> sum(...),
+    # single-assigned locals replaced by their definitions, surviving locals / comprehension variables renamed
+    # canonically), so hoisting a sub-expression into a local, renaming a local or writing the sum as a loop
+    # leaves the text unchanged, while any change of a regex / factor / check changes it.
+    nf = Norm(new)
+    new = nf.fn
+
+    def calls(name):
+        return [n for n in ast.walk(new) if isinstance(n, ast.Call) and ast.unparse(n.func) == name and n.args]
+
+    def one_call(name):
+        cs = calls(name)
+        if len(cs) != 1:
+            raise TranslationError(f"DurationType.__new__: {len(cs)} calls of {name} (expected 1)")
+        return cs[0]
+
+    comp, fit = one_call("re.compile"), one_call("re.finditer")
+    duration_pat = nf.expand(comp.args[0], nf.stmt_line(comp))
     # the table the parser uses: Fraction(scale[u]).limit_denominator(NanosecondsPerSecond), computed as the
-    # source computes it (the expression itself is pinned below as `durTermExpr`)
+    # source computes it (the expression itself is pinned below as `durTotalExpr`)
     rows = []
     for k, v in scale.items():
         fr = Fraction(v).limit_denominator(nps)
         rows.append(f"({lean_str(k)}, {fr.numerator}, {fr.denominator})")
     out.append("/-- unit, numerator, denominator of the unit in seconds -/")
     out.append("def scaleTable : List (String × Nat × Nat) := " + lean_list(rows))
-    if text.get("valid_units") != "sorted(cls.scale.keys(), key=len, reverse=True)":
-        raise TranslationError("DurationType.__new__: valid_units is not sorted(scale, key=len, reverse=True)")
+    holes = [ast.unparse(nf.canon(h.value)) for h in ast.walk(duration_pat) if isinstance(h, ast.FormattedValue)]
+    if len(holes) != 1 or "sorted(cls.scale.keys(), key=len, reverse=True)" not in holes[0]:
+        raise TranslationError("DurationType.__new__: the unit alternation is not built from sorted(scale, key=len, reverse=True)")
     order = sorted(scale.keys(), key=len, reverse=True)
     out.append("def unitOrder : List String := " + lean_list([lean_str(u) for u in order]))
-    out.append("def unitsPatternExpr : String := " + lean_str(text.get("units_pattern", "")))
-    pats = {}
-    for node in ast.walk(new):
-        if isinstance(node, ast.Call) and ast.unparse(node.func) in ("re.compile", "re.finditer") and node.args:
-            pats[ast.unparse(node.func)] = ast.unparse(node.args[0])
-    out.append("def durationPat : String := " + lean_str(pats.get("re.compile", "")))
-    out.append("def finditerPat : String := " + lean_str(pats.get("re.finditer", "")))
-    out.append("def durTotalExpr : String := " + lean_str(text.get("total", "")))
+    out.append("def unitsPatternExpr : String := " + lean_str(holes[0]))
+    # readability: a pinned text that contains another pinned text shows it as ‹name› (purely textual)
+    P = ast.unparse(nf.canon(duration_pat))
+    F = nf.text(fit.args[0], nf.stmt_line(fit))
+    out.append("def durationPat : String := " + lean_str(P.replace(holes[0], "‹units›")))
+    out.append("def finditerPat : String := " + lean_str(F.replace(holes[0], "‹units›")))
+    # the sum over the components: the last assignment whose (expanded) value runs re.finditer
+    tot = None
+    for st in ast.walk(new):
+        sa = _simple_assign(st)
+        if sa:
+            val = nf.expand(sa[1], st.lineno)
+            if any(isinstance(n, ast.Call) and ast.unparse(n.func) == "re.finditer" for n in ast.walk(val)):
+                if tot is None or st.lineno > tot[0].lineno:
+                    tot = (st, val)
+    if tot is None:
+        raise TranslationError("DurationType.__new__: no assignment computes the sum over re.finditer")
+    TOT = ast.unparse(nf.canon(tot[1]))
+    out.append("def durTotalExpr : String := " + lean_str(TOT.replace(F, "‹finditerPat›")))
+
+    def short(t):
+        return t.replace(TOT, "‹total›").replace(P, "‹durationPat›")
+    # the sign has been consumed (and `seconds` stripped of it) before the sum is computed
+    late = [nm for nm in set(_loads(tot[1])) if nm in nf.multi
+            and any(b is not new and b.lineno >= tot[0].lineno for b in nf.binds[nm])]
+    out.append("def durSignBeforeTotal : Bool := " + ("true" if not late else "false"))
+    # exception classes under which the sum is computed (`except KeyError: raise ValueError`)
+    hs = []
+    for t in ast.walk(new):
+        if isinstance(t, ast.Try) and any(n is tot[0] for b in t.body for n in ast.walk(b)):
+            for h in t.handlers:
+                hs += exc_names(h.type)
+    out.append("def durTotalHandlers : List String := " + lean_list([lean_str(h) for h in sorted(set(hs))]))
     # branch tests, range checks and constructor calls of DurationType.__new__, in source order
     out.append("def durNewTests : List String := " + lean_list([lean_str(t) for t, _ in _ladder(new)]))
-    checks = [ast.unparse(n.test) for n in ast.walk(new) if isinstance(n, ast.If) and any(isinstance(b, ast.Raise) for b in n.body)]
-    out.append("def durRaiseTests : List String := " + lean_list([lean_str(c) for c in checks]))
-    ctors = [ast.unparse(n.value) for n in ast.walk(new) if isinstance(n, ast.Return) and n.value is not None]
-    out.append("def durCtorCalls : List String := " + lean_list([lean_str(c) for c in ctors]))
+    checks = [nf.text(n.test, n.lineno) for n in ast.walk(new) if isinstance(n, ast.If) and any(isinstance(b, ast.Raise) for b in n.body)]
+    out.append("def durRaiseTests : List String := " + lean_list([lean_str(short(c)) for c in checks]))
+    ctors = [nf.text(n.value, n.lineno) for n in ast.walk(new) if isinstance(n, ast.Return) and n.value is not None]
+    out.append("def durCtorCalls : List String := " + lean_list([lean_str(short(c)) for c in ctors]))
     # timestamp arithmetic dunders (normalised source)
     for n in ["__add__", "__radd__", "__sub__"]:
         out.append(f"def ts{n.strip('_').capitalize()}Body : String := " + lean_str(_body_text(_last_func(T.body, n))))
@@ -256,8 +373,28 @@ deriving DecidableEq, Repr
 """)
     rows = []
     for a in ACCESSORS:
-        rows.append(f"({lean_str(a)}, {_Acc(a).run(find_func(T.body, a))})")
+        rows.append(f"({lean_str(a)}, {_Acc("TimestampType." + a, T, m).run(find_func(T.body, a))})")
     out.append("def accessors : List (String × AExp) :=\n  [" + ",\n   ".join(rows) + "]")
+    # the CEL-level functions: base_functions["getX"] -> evaluation.function_getX -> ts.<method>(tz_name)
+    bf = {}
+    for node in ast.walk(ev):
+        tgt = val = None
+        if isinstance(node, ast.AnnAssign) and isinstance(node.target, ast.Name):
+            tgt, val = node.target.id, node.value
+        elif isinstance(node, ast.Assign) and len(node.targets) == 1 and isinstance(node.targets[0], ast.Name):
+            tgt, val = node.targets[0].id, node.value
+        if tgt == "base_functions" and isinstance(val, ast.Dict):
+            for k, v in zip(val.keys, val.values):
+                if isinstance(k, ast.Constant) and k.value in ACCESSORS:
+                    bf[k.value] = v
+    rows = []
+    for a in ACCESSORS:
+        if a not in bf or not isinstance(bf[a], ast.Name):
+            raise TranslationError(f"base_functions[{a!r}] is not a plain function name")
+        w = _Acc("evaluation." + bf[a].id, None, ev).run_wrapper(find_func(ev.body, bf[a].id))
+        rows.append(f"({lean_str(a)}, {lean_str(w)})")
+    out.append("/-- CEL function name ↦ the `TimestampType` method its wrapper in evaluation.py calls with (ts, tz_name) -/")
+    out.append("def accessorWrappers : List (String × String) :=\n  [" + ",\n   ".join(rows) + "]")
     # interpreter handlers
     evcls = find_class(ev, "Evaluator")
     for rule in ("addition", "method_eval", "function_eval"):
@@ -266,14 +403,152 @@ deriving DecidableEq, Repr
     return "\n".join(out)
 
 
+# ---- semantic dispatch of the `__new__` ladders (C10 round 2) ------------------------------------
+CLS = ["NoneType", "object", "bool", "int", "float", "str", "bytes", "list", "dict", "datetime", "timedelta", "Iterable",
+       "BoolType", "IntType", "UintType", "DoubleType", "StringType", "BytesType", "ListType", "MapType",
+       "MessageType", "PackageType", "TimestampType", "DurationType", "NullType"]
+BASE_EXPR = {"int": "int", "float": "float", "str": "str", "bytes": "bytes", "List[Value]": "list", "Dict[Value, Value]": "dict",
+             "datetime.datetime": "datetime", "datetime.timedelta": "timedelta", "MapType": "MapType"}
+TEXT_CLS = {"str", "StringType"}
+
+
+def _codes(s: str) -> str:
+    return "[" + ", ".join(str(ord(c)) for c in s) + "]"
+
+
+class _Dispatch:
+    """`__new__(cls, source)` → Lean function `Cls → List Nat → String`: for an object of exactly class `k`
+    (and text `t` when it is a str) the statements that run, as `'; '`-joined normalised source.
+    Tests: `source is None`, `isinstance(source, C | (C, …))`, `and` / `or` / `not`, and — only where the
+    source is known to be text (to the right of / underneath an isinstance test for str classes) —
+    `source[:n] in {…}` and `source in (…)` over string constants.  Anything else: TranslationError."""
+
+    def __init__(self, cname: str, arg: str = "source"):
+        self.cname = cname
+        self.arg = arg
+
+    def fail(self, what):
+        raise TranslationError(f"{self.cname}.__new__: {what}")
+
+    def classes(self, node) -> list:
+        elts = node.elts if isinstance(node, ast.Tuple) else [node]
+        out = []
+        for e in elts:
+            name = ast.unparse(e)
+            name = {"datetime.datetime": "datetime", "datetime.timedelta": "timedelta"}.get(name, name)
+            if name not in CLS:
+                self.fail(f"isinstance against {name}")
+            out.append(name)
+        return sorted(set(out), key=CLS.index)
+
+    def is_arg(self, e) -> bool:
+        return isinstance(e, ast.Name) and e.id == self.arg
+
+    def str_consts(self, node) -> list:
+        if not isinstance(node, (ast.Set, ast.Tuple, ast.List)):
+            self.fail(f"membership in {ast.unparse(node)[:40]}")
+        vals = []
+        for e in node.elts:
+            if not (isinstance(e, ast.Constant) and isinstance(e.value, str)):
+                self.fail("membership in a collection of non-string constants")
+            vals.append(e.value)
+        return sorted(set(vals))
+
+    def implies_text(self, e) -> bool:
+        """the test can only be true for a str / StringType source"""
+        if isinstance(e, ast.Call) and ast.unparse(e.func) == "isinstance" and len(e.args) == 2 and self.is_arg(e.args[0]):
+            return set(self.classes(e.args[1])) <= TEXT_CLS
+        if isinstance(e, ast.BoolOp) and isinstance(e.op, ast.And):
+            return any(self.implies_text(v) for v in e.values)
+        if isinstance(e, ast.BoolOp) and isinstance(e.op, ast.Or):
+            return all(self.implies_text(v) for v in e.values)
+        return False
+
+    def test(self, e, text_ok: bool) -> str:
+        if isinstance(e, ast.Compare) and len(e.ops) == 1:
+            op, rhs = e.ops[0], e.comparators[0]
+            if isinstance(op, (ast.Is, ast.IsNot)) and self.is_arg(e.left) and isinstance(rhs, ast.Constant) and rhs.value is None:
+                r = "Cel.Conv.isInst k [.NoneType]"
+                return r if isinstance(op, ast.Is) else f"(!{r})"
+            if isinstance(op, (ast.In, ast.NotIn)):
+                if not text_ok:
+                    self.fail(f"text test `{ast.unparse(e)[:50]}` where the source is not known to be a str")
+                opts = "[" + ", ".join(_codes(v) for v in self.str_consts(rhs)) + "]"
+                if self.is_arg(e.left):
+                    r = f"Cel.Conv.textIn t {opts}"
+                elif (isinstance(e.left, ast.Subscript) and self.is_arg(e.left.value) and isinstance(e.left.slice, ast.Slice)
+                      and e.left.slice.lower is None and e.left.slice.step is None
+                      and isinstance(e.left.slice.upper, ast.Constant) and isinstance(e.left.slice.upper.value, int)
+                      and e.left.slice.upper.value >= 0):
+                    r = f"Cel.Conv.prefixIn t {e.left.slice.upper.value} {opts}"
+                else:
+                    self.fail(f"test {ast.unparse(e)[:50]}")
+                return r if isinstance(op, ast.In) else f"(!{r})"
+            self.fail(f"test {ast.unparse(e)[:50]}")
+        if isinstance(e, ast.Call) and ast.unparse(e.func) == "isinstance" and len(e.args) == 2 and not e.keywords:
+            if not self.is_arg(e.args[0]):
+                self.fail(f"isinstance of {ast.unparse(e.args[0])[:30]}")
+            return "Cel.Conv.isInst k [" + ", ".join("." + c for c in self.classes(e.args[1])) + "]"
+        if isinstance(e, ast.UnaryOp) and isinstance(e.op, ast.Not):
+            return f"(!{self.test(e.operand, text_ok)})"
+        if isinstance(e, ast.BoolOp):
+            parts = []
+            ok = text_ok
+            for v in e.values:
+                parts.append(self.test(v, ok))
+                if isinstance(e.op, ast.And) and self.implies_text(v):
+                    ok = True                     # operands to the right run only when this one was true
+            return "(" + (" && " if isinstance(e.op, ast.And) else " || ").join(parts) + ")"
+        self.fail(f"test {ast.unparse(e)[:50]}")
+
+    def paths(self, stmts: list, acc: list, text_ok: bool, ind: str) -> str:
+        for i, st in enumerate(stmts):
+            if isinstance(st, ast.AnnAssign) and st.value is None:
+                continue                          # bare annotation `convert: Callable[..., int]`
+            if isinstance(st, ast.If):
+                rest = stmts[i + 1:]
+                c = self.test(st.test, text_ok)
+                thn = self.paths(list(st.body) + rest, list(acc), text_ok or self.implies_text(st.test), ind + "  ")
+                els = self.paths(list(st.orelse) + rest, list(acc), text_ok, ind + "  ")
+                return f"\n{ind}if {c} then {thn}\n{ind}else {els}"
+            if isinstance(st, (ast.For, ast.While, ast.Try, ast.With, ast.Match, ast.FunctionDef)):
+                self.fail(f"statement {type(st).__name__}")
+            acc.append(ast.unparse(st))
+            if isinstance(st, (ast.Return, ast.Raise)):
+                return lean_str("; ".join(acc))
+        return lean_str("; ".join(acc + ["<falls off the end>"]))
+
+    def run(self, fn: ast.FunctionDef, lname: str) -> str:
+        args = [a.arg for a in fn.args.args]
+        if len(args) < 2 or args[1] != self.arg:
+            self.fail(f"signature ({', '.join(args)})")
+        body = self.paths(strip_doc(fn.body), [], False, "  ")
+        return f"def {lname} (k : Cel.Conv.Cls) (t : List Nat) : String :={body}"
+
+
+def _class_bases(m: ast.Module) -> str:
+    rows = []
+    for n in m.body:
+        if isinstance(n, ast.ClassDef) and n.name in CLS:
+            if len(n.bases) > 1:
+                raise TranslationError(f"class {n.name}: several bases")
+            b = ast.unparse(n.bases[0]) if n.bases else "object"
+            b = BASE_EXPR.get(b, b if b == "object" else None)
+            if b is None:
+                raise TranslationError(f"class {n.name}: base {ast.unparse(n.bases[0])}")
+            rows.append((n.name, b))
+    return lean_list([f"(.{a}, .{b})" for a, b in sorted(rows)])
+
+
 def gen_conv() -> str:
     m = parse("src/celpy/celtypes.py")
     ev = parse("src/celpy/evaluation.py")
     out = [HEADER.format(src="src/celpy/celtypes.py (constructors, __str__), src/celpy/evaluation.py (base_functions, function_eval)"),
-           "import Cel.Model.Basic\nnamespace Cel.Gen.Conv\n"]
+           "import Cel.Model.Basic\nimport Cel.Model.ConvDispatch\nnamespace Cel.Gen.Conv\n"]
+    out.append("/-- direct bases of the celtypes classes -/\ndef classBases : List (Cel.Conv.Cls × Cel.Conv.Cls) := " + _class_bases(m))
     for cname in ("IntType", "UintType", "DoubleType", "StringType", "BytesType", "BoolType"):
         C = find_class(m, cname)
-        out.append(f"def {cname[0].lower() + cname[1:]}NewLadder : List (String × String) :=\n  " + _pairs(_ladder(find_func(C.body, "__new__"))))
+        out.append(_Dispatch(cname).run(_last_func(C.body, "__new__"), cname[0].lower() + cname[1:] + "New"))
     T = find_class(m, "TimestampType")
     lad = _ladder(find_func(T.body, "__new__"))
     out.append("def timestampTypeNewTests : List String := " + lean_list([lean_str(t) for t, _ in lad]))
